@@ -217,3 +217,31 @@ func l2QueryMonitor(rep *Report, c *L2Case, prop string) {
 		Ops:  opsCoq(c.Ops)})
 	e.QueryDiffs = nil
 }
+
+// l2SetupRefused: a set-up message of a stream - a well-formed, next-in-order finalization sent by a
+// listed bridge executor - was refused by the implementation.  That is itself a violation of the
+// property's first clause ("finalization by an authorised executor succeeds"), not a harness error:
+// report it with the 1-operation history and the executor list, and let the caller skip the case.
+func l2SetupRefused(rep *Report, prop string, e *L2Env, caseID int, op L2Op, res ExecResult) {
+	ps, _ := e.K.GetParams(e.Ctx)
+	rep.Violate(Violation{Case: caseID, Step: 0, Sig: prop + ":authorised-finalization-refused",
+		What: fmt.Sprintf("a well-formed deposit at the expected sequence sent by a LISTED bridge executor was refused: %s (sender %s, executor list %v)", res.Err, op.Sender, ps.BridgeExecutors),
+		Ops:  opsCoq([]L2Op{op}), Detail: map[string]interface{}{"executors": ps.BridgeExecutors, "sender": op.Sender}})
+	rep.Hist("setup:authorised-finalization-refused")
+}
+
+// l2AuthorisedCheck: over a finished case, every well-formed deposit at the expected sequence whose
+// sender was a listed executor when it was sent (L2Case.SenderIsExec, computed by the harness with
+// the real address codec before the message ran) must have been processed.
+func l2AuthorisedCheck(rep *Report, c *L2Case, prop string, startNext uint64) {
+	n1 := startNext
+	for i, o := range c.Ops {
+		cur := l2ViewOf(c.Track, c.Obs[i])
+		if o.Kind == "fdep" && !cur.OK && i < len(c.SenderIsExec) && c.SenderIsExec[i] && o.Seq == n1 && o.Seq != 0 &&
+			o.From != "" && o.Height != 0 && sdk.ValidateDenom(o.Denom) == nil && sdk.ValidateDenom(o.Base) == nil && o.Amt.Sign() >= 0 {
+			rep.Violate(Violation{Case: c.ID, Step: i, Sig: prop + ":authorised-finalization-refused",
+				What: "a well-formed deposit at the expected sequence sent by a listed bridge executor was refused: " + c.Results[i].Err, Ops: opsCoq(c.Ops[:i+1])})
+		}
+		n1 = cur.N1
+	}
+}
